@@ -1216,6 +1216,7 @@ br_ssl_engine_recvrec_ack(br_ssl_engine_context *cc, size_t len)
 			 */
 			if (cc->application_data == 2) {
 				recvpld_ack(cc, len);
+				jump_handshake(cc, 0);
 				break;
 			}
 
